@@ -103,3 +103,14 @@ func VfC16_ParseTypes() {
 	vfAssert("C16.parse.same-structure", hC06Same(t, t2))
 	vfAssert("C16.parse.same-text", t2.LLString() == t.LLString())
 }
+
+// VfC16_ParsePairs: two sets of types that differ in one attribute each
+// (address space of a pointer to the same identified struct and to the same
+// integer type, scalability of vectors of the same length, element width) in
+// one module: every type read back is structurally its own, whatever the
+// translator did for the other set (shared with C06 `ParsePairs`).
+//
+//vf:unwind 300
+//vf:steps 60000000
+//vf:shards 4
+func VfC16_ParsePairs() { hC06Pairs("C16") }
